@@ -166,3 +166,43 @@ Theorem C02_engine_folded_player_wins_nothing :
       chg (res_players r) (zn i) = - (p_pot (get_p s i) + p_wager (get_p s i)).
 Proof. exact folded_player_wins_nothing. Qed.
 Print Assumptions C02_engine_folded_player_wins_nothing.
+
+(* the hypothesis on the scores is met in play: for the two shipped ranking tables, the two shipped variants
+   (2 hole cards; 4 hole cards of which exactly 2 play) and any deck of distinct cards of the 52-card deck,
+   every player still in the hand carries a strength above zero from the deal of the hole cards on — a hand
+   of two or of five distinct cards scores above zero (finite check over all 2,652 ordered pairs and all 7,462
+   five-card classes), one such selection is always among the candidates (Gosper enumeration is complete), and
+   the stored strength is the maximum over the candidates *)
+From PF Require Import ProofsEval ProofsScore ProofsLive.
+Theorem C02_live_hands_score_above_zero :
+  forall c deck g ops,
+    cfg_ok c -> length deck = length (c_deck c) -> create c deck = (g, Ok) ->
+    shipped (c_table c) -> variant_ok c -> deck_ok deck ->
+    let s := run g ops in
+    st_round (g_st s) <> RNone ->
+    forall k, (k < nplayers s)%nat -> p_fold (get_p s k) = false -> 0 < score_of (get_p s k).
+Proof. exact live_scores_positive. Qed.
+Print Assumptions C02_live_hands_score_above_zero.
+
+(* so in the result recorded by the engine a folded player wins nothing and loses exactly what he put in *)
+Theorem C02_engine_folded_player_wins_nothing_on_a_real_deck :
+  forall c deck g ops,
+    cfg_ok c -> length deck = length (c_deck c) -> create c deck = (g, Ok) ->
+    shipped (c_table c) -> variant_ok c -> deck_ok deck ->
+    let s := run g ops in
+    forall r, g_result s = Some r ->
+    forall i, (i < nplayers s)%nat -> p_fold (get_p s i) = true ->
+      chg (res_players r) (zn i) = - (p_pot (get_p s i) + p_wager (get_p s i)).
+Proof. exact folded_wins_nothing_on_a_real_deck. Qed.
+Print Assumptions C02_engine_folded_player_wins_nothing_on_a_real_deck.
+
+(* the premise on the deck: the 52-card and the 36-card deck in the order deck.go builds them, and every
+   reordering (shuffle) of a deck that meets it *)
+Theorem C02_shipped_decks_are_real_decks :
+  deck_ok standard_wires /\ deck_ok shortdeck_wires /\
+  (length standard_wires = 52 /\ length shortdeck_wires = 36)%nat /\
+  forall d d0, Permutation.Permutation d d0 -> deck_ok d0 -> deck_ok d.
+Proof.
+  split; [exact standard_deck_ok|]. split; [exact shortdeck_deck_ok|]. split; [split; reflexivity|]. exact deck_ok_perm.
+Qed.
+Print Assumptions C02_shipped_decks_are_real_decks.
